@@ -33,6 +33,7 @@ void Resource::lock(OpType opType) {
 
     if (m_queue.empty() && (m_activeOp == OpType::None || (m_activeOp == opType && opType == OpType::Read))) {
         m_activeOp = opType;
+        ++m_activeCount;
     } else {
         auto id = m_idCounter++;
 
@@ -41,9 +42,9 @@ void Resource::lock(OpType opType) {
         m_cv.wait(lock, [id, this] {
             return id < m_upperUnlockBound;
         });
-    }
 
-    ++m_activeCount;
+        // admitted waiters have already been counted by `select()`
+    }
 }
 
 void Resource::unlock(OpType opType) {
@@ -87,7 +88,11 @@ void Resource::select() {
     auto op = m_queue.front();
     m_queue.pop_front();
 
+    // count the whole admitted batch now, not when its members wake up:
+    // otherwise a member that leaves early would see the count drop to 0
+    // and admit the next entry while its siblings are still asleep
     m_activeOp = op.type;
+    m_activeCount = static_cast<size_t>(op.upperBound - m_upperUnlockBound);
     m_upperUnlockBound = op.upperBound;
 }
 } // tulz::rwp
